@@ -53,7 +53,7 @@ var segKeys = []string{"s0", "s1", "s2", "s3", "s4", "s5"}
 
 var strPool = []string{"alice@x.com", "bob", "a", "b", "", "x.com", "Alice", "ab", "zzz", "user", "org", "日本", "a/b", "~t", "\x00", "a\x00b", "\x7f\x01"}
 var numPool = []float64{0, 1, -1, 42, 42.5, 1e10, 9007199254740992, -9007199254740992, 0.1, 99.99, 3, 1577836800000,
-	253402300799000, -62135596800000, 1e30, -0.0, 7, 100}
+	253402300799000, -62135596800000, 1e30, math.Copysign(0, -1), 7, 100}
 var datePool = []string{"2020-01-01T00:00:00Z", "2020-01-01T01:00:00+01:00", "2019-12-31T23:59:59.999999999Z",
 	"0001-01-01T00:00:00Z", "9999-12-31T23:59:59.999999999Z", "2020-01-01t00:00:00z", "2020-01-01T00:00:00.5-07:30",
 	"2020-13-01T00:00:00Z", "2020-01-01", "2020-01-01T00:00:00", "2020-02-30T00:00:00Z", "2020-1-01T00:00:00Z",
@@ -344,6 +344,9 @@ func (w *World) genClause(segOK bool) *J {
 			switch op {
 			case "in":
 				v = w.anyValue(0)
+				if r.P(0.15) {
+					v = JNum([]float64{0, math.Copysign(0, -1), 1, 42}[r.Intn(4)])
+				}
 			case "endsWith", "startsWith", "contains":
 				v = w.scalarOfType([]int{0, 0, 0, 1}[r.Intn(4)])
 			case "matches":
@@ -352,6 +355,9 @@ func (w *World) genClause(segOK bool) *J {
 				v = w.scalarOfType([]int{1, 1, 1, 6}[r.Intn(4)])
 			case "before", "after":
 				v = w.scalarOfType([]int{3, 3, 1, 2}[r.Intn(4)])
+				if r.P(0.12) { // the instant whose Go representation is the zero time.Time, in its three spellings
+					v = []*J{JStr("0001-01-01T00:00:00Z"), JStr("0000-12-31T23:00:00-01:00"), JNum(-62135596800000)}[r.Intn(3)]
+				}
 			case "semVerEqual", "semVerLessThan", "semVerGreaterThan":
 				v = w.scalarOfType([]int{4, 4, 4, 1}[r.Intn(4)])
 			default:
